@@ -4,7 +4,7 @@
 # demonstration (must fail), reverts, runs the demonstration again (must pass); copies it to /verif/seeded/<PROP>_<k>/ and
 # runs the given checks against it (scratch copy, nothing in /repo is touched).
 P=$1; K=$2; CHECKS=$3; shift 3
-WT=/tmp/wt_$P
+WT=${WTROOT:-/tmp/wt_}$P
 OUT=/verif/seeded/${P}_$K
 mkdir -p $OUT
 cd $WT || exit 2
